@@ -79,3 +79,21 @@ Proof.
   intros F Fa Fb. unfold i_ge_vv. rewrite (cmp_is_real _ _ _ _ H1 H1' H1 H1') by assumption.
   destruct (Rcompare_spec (B2R a) (B2R b)); cbn; split; intros; try discriminate; try lra; reflexivity.
 Qed.
+
+(* an unknown full scale (NaN: Reader.range_volts of a recording without metadata) switches the
+   amplitude test off for that channel, whatever the sample; a NaN sample passes neither test *)
+Lemma pub_nan_range_never_over pd ed pm em (Hpm : Prec_gt_0 pm) (Hem : Prec_lt_emax pm em)
+      (x : binary_float pd ed) :
+  over _ _ (i_vabs pd ed) (i_thr98 pm em Hpm Hem) (i_gt_vw pd ed pm em) x B754_nan = false.
+Proof.
+  unfold over, i_thr98, i_gt_vw, cmp_is.
+  assert (Hn : Bmult mode_NE (B754_nan : binary_float pm em) (of_me_m pm em Hpm Hem c098_m c098_e) = B754_nan)
+    by reflexivity.
+  rewrite Hn. cbn [widen]. unfold Bcompare. cbn [B2SF].
+  destruct (B2SF (widen (i_vabs pd ed x))); reflexivity.
+Qed.
+
+Lemma pub_nan_sample_never_over pd ed pm em (Hpm : Prec_gt_0 pm) (Hem : Prec_lt_emax pm em)
+      (mv : binary_float pm em) :
+  over _ _ (i_vabs pd ed) (i_thr98 pm em Hpm Hem) (i_gt_vw pd ed pm em) B754_nan mv = false.
+Proof. reflexivity. Qed.
